@@ -7,3 +7,6 @@ Definition u16 x := x mod 2^16.
 Definition u32 x := x mod 2^32.
 Definition u64 x := x mod 2^64.
 Definition u128 x := x mod 2^128.
+Definition b2z (b : bool) : Z := if b then 1 else 0.
+(* conversion to a signed type of width w: two's complement *)
+Definition sN (w x : Z) : Z := let m := x mod 2^w in if m <? 2^(w-1) then m else m - 2^w.
